@@ -430,6 +430,16 @@ def run_op(op: Dict[str, Any], lazies: Dict[int, Any]) -> Any:
         kw = {}
         if op.get("preserve") is not None:
             kw["preserve"] = frozenset(op["preserve"])
+        else:
+            # rules whose preserve parameter has no default can not be called without it
+            import inspect
+
+            try:
+                prm = inspect.signature(getattr(fn, "_fix_func", fn)).parameters.get("preserve")
+            except (TypeError, ValueError):
+                prm = None
+            if prm is not None and prm.default is inspect.Parameter.empty:
+                kw["preserve"] = frozenset()
         if op["rule"] == "abstractions.overused_constant":
             kw["root_is_static"] = op.get("root_is_static", True)  # its one required keyword
         return ["ok", fn(op["x"], **kw)]
@@ -658,6 +668,13 @@ class RefServer:
 # --------------------------------------------------------------------------- execute
 
 def execute(case: Dict[str, Any]) -> Dict[str, Any]:
+    if case.get("private_tree"):
+        with C.scratch_lock(C.SCRATCH_ROOT / "e2run" / f"{int(case.get('seed') or 0):016x}"):
+            return _execute_locked(case)
+    return _execute_locked(case)
+
+
+def _execute_locked(case: Dict[str, Any]) -> Dict[str, Any]:
     C.import_pyrefact()
     ensure_static_tree()
     os.chdir(E2_CWD)
@@ -1164,7 +1181,7 @@ def generate_blocks(rng: random.Random, index: int, of: int) -> Dict[str, Any]:
         if v == 2:
             x = gen.with_blank_runs(rng, x)
         ops.append({"op": "FMT", "x": x})
-        for name in tail:
+        for name in (list(takes) if v == 0 else tail):  # first variant: every rule on its own, not only the late stages
             op: Dict[str, Any] = {"op": "RULE", "rule": name, "x": x}
             if takes.get(name) and rng.random() < 0.3:
                 op["preserve"] = sorted(gen.some_names(rng, x))
